@@ -26,6 +26,9 @@ pub struct World {
     /// hash index frozen by the scheduler (C14), if any.
     pub frozen_hash: Option<usize>,
     pub frozen_at_step: Option<u64>,
+    /// E2 watcher: heights passed to new_block whose call has not completed yet.
+    pub comp_pending_blocks: Vec<u32>,
+    pub catchup: Option<(u32, u64)>,
     /// Kinds of the operation executed in the current step.
     pub op_kind: &'static str,
     /// Were only non-trampoline HTLCs delivered by the current op?
